@@ -2892,3 +2892,64 @@ fire("c19-lcm-multiplies-by-gcd", ["C19"], "pymbolic/algorithm.py",
      "    return abs(q*r)//gcd(q, r)",
      "    return abs(q*r)*gcd(q, r)",
      "P/lcm/consistent-with-gcd")
+
+# ---- C18 (geometric algebra, abstract interpretation) ---------------------
+GAF = "pymbolic/geometric_algebra/__init__.py"
+fire("c18-reordering-sign-off-by-one", ["C18"], GAF,
+     "    a_bits = a_bits >> 1\n    s = 0\n", "    s = 0\n", "P/ga/")
+fire("c18-inverse-sign-by-grade-parity", ["C18"], GAF,
+     "        if grade*(grade-1)//2 % 2:\n            coeff = -coeff\n",
+     "        if grade % 2:\n            coeff = -coeff\n", "P/ga/inv(")
+fire("c18-left-contraction-is-right", ["C18"], GAF,
+     "        if shared_bits == a_bits:\n            return _shared_metric_coeff(shared_bits, space)",
+     "        if shared_bits == b_bits:\n            return _shared_metric_coeff(shared_bits, space)",
+     "P/ga/left contraction")
+fire("c18-involution-mod-four", ["C18"], GAF,
+     "            if grade % 2 == 0:\n                new_data[bits] = coeff",
+     "            if grade % 4 == 0:\n                new_data[bits] = coeff",
+     "P/ga/invol(")
+fire("c18-reverse-sign-rule", ["C18"], GAF,
+     "            if grade*(grade-1)//2 % 2 == 0:\n                new_data[bits] = coeff",
+     "            if grade*(grade+1)//2 % 2 == 0:\n                new_data[bits] = coeff",
+     "P/ga/")
+fire("c18-metric-uses-neighbouring-entry", ["C18"], GAF,
+     "            result = result * space.metric_matrix[basis_idx, basis_idx]",
+     "            result = result * space.metric_matrix[basis_idx, basis_idx-1]",
+     "P/ga/")
+fire("c18-outer-product-overlap-allowed", ["C18"], GAF,
+     "        return int(not a_bits & b_bits)",
+     "        return int(not a_bits & b_bits & 1)",
+     "P/ga/outer product")
+fire("c18-sum-keeps-zero-coefficients", ["C18"], GAF,
+     "            if not is_zero(new_coeff):\n                new_data[bits] = new_coeff\n\n        return MultiVector(new_data, self.space)",
+     "            new_data[bits] = new_coeff\n\n        return MultiVector(new_data, self.space)",
+     "P/ga/__add__/no-zero-coefficients-stored")
+fire("c18-eq-compares-space-too", ["C18"], GAF,
+     "        return self.data == other.data",
+     "        return self.data == other.data and self.space is other.space",
+     "S/ga/eq-is-coefficientwise")
+fire("c18-hash-mixes-space-identity", ["C18"], GAF,
+     "        result = hash(type(self).__name__)\n        for bits, coeff in self.data.items():",
+     "        result = hash(self.space)\n        for bits, coeff in self.data.items():",
+     "S/ga/hash-reads-coefficients-only")
+fire("c18-permutation-sign-never-flips", ["C18"], GAF,
+     "            p[i], p[j] = p[j], p[i]\n            s = -s",
+     "            p[i], p[j] = p[j], p[i]",
+     "P/ga/MultiVector(")
+fire("c18-vector-inverse-forgets-norm", ["C18"], GAF,
+     "                    bits: coeff/nsqr for bits, coeff in self.data.items()},",
+     "                    bits: coeff for bits, coeff in self.data.items()},",
+     "P/ga/inv(v)")
+fire("c18-scalar-product-of-unequal-blades", ["C18"], GAF,
+     "        if a_bits == b_bits:\n            return _shared_metric_coeff(a_bits, space)",
+     "        if a_bits & b_bits:\n            return _shared_metric_coeff(a_bits, space)",
+     "P/ga/scalar product")
+silent("c18-silent-bit-count-builtin", ["C18"], GAF,
+       "    count = 0\n    while i:\n        i &= i - 1\n        count += 1\n    return count",
+       "    return bin(i).count(\"1\")")
+silent("c18-silent-neg-loop", ["C18"], GAF,
+       "        return MultiVector(\n                {bits: -coeff\n                    for bits, coeff in self.data.items()},\n                self.space)",
+       "        new_data = {}\n        for bits, coeff in self.data.items():\n            new_data[bits] = -coeff\n        return MultiVector(new_data, self.space)")
+silent("c18-silent-sub-direct", ["C18"], GAF,
+       "        return self + (-other)",
+       "        return self.__add__(-other)")
